@@ -127,6 +127,7 @@ package builder
 // sits one level deeper.
 //@ func (*data/builder.shard).add
 //@ prop C02 C10
+//@ ensures running-out-of-hash-bits-is-an-error-never-a-silent-drop: (s.depth + 1) * s.sizeLg2 > 8 * len(lnk.hash) ==> err != nil
 //@ at call mapupdate#0 assert an-occupied-bucket-is-only-ever-replaced-by-a-sub-shard: upd_map == s.children && (upd_had ==> upd_value.shard != nil && upd_value.hamtLink == nil)
 //@ at call (*data/builder.shard).add#2 assert the-link-that-was-in-the-bucket-moves-into-the-new-sub-shard: callee_lnk.PBLink == current.hamtLink.PBLink
 //@ at call (*data/builder.shard).add#3 assert the-new-link-goes-into-the-new-sub-shard-too: callee_lnk.PBLink == lnk.PBLink && callee_recv == mapget(s.children, bucket).shard
